@@ -945,26 +945,156 @@ theorem mergeSchemas_names {V : Type} (defs : List (String × Sch V)) (acc : Lis
     simp only [List.foldl_cons]
     exact ih _ (ainsert_all identOK d.1 _ acc hd.1 ha) hd.2
 
-/-- Full statement: the converted document passes validation. It fails when a shared name is outside the v3
-    identifier alphabet (finding #38). **toV3_validates** — for the part of `Validate` the conversion itself can
-    break (component names); the rest of `Validate` is exercised by the differential run, not modelled. -/
-theorem toV3_validates_partial {V : Type} (d : Doc2 V) (d3 : Doc3 V) (h : toV3Raw d = .ok d3)
-    (hn : namesOK d = true) : validates3 d3 = true := by
-  simp only [namesOK, Bool.and_eq_true] at hn
-  obtain ⟨⟨⟨hp, hr⟩, hd⟩, hs⟩ := hn
-  have hsh := sharedP3_names d.consumes d.params hp
-  unfold toV3Raw at h
+theorem toV3P_body_content {V : Type} (env : Env3 V) (c : List String) (q : PRef2 V) (b : BRef3 V)
+    (hq : bodyParamOK q = true) (h : toV3P env c q = .body b) : bodyHasContent b = true := by
+  cases q with
+  | ref k n =>
+    simp only [toV3P] at h
+    by_cases hk : k = RK.par2
+    · by_cases hb : (alookup n env.cbodies).isSome = true
+      · simp only [hk, hb, if_true, P3.body.injEq] at h
+        subst h; rfl
+      · cases hc : alookup n env.cschemas <;> simp [hk, hb, hc] at h
+    · simp [hk] at h
+  | val p =>
+    simp only [toV3P] at h
+    simp only [bodyParamOK, Bool.or_eq_true, bne_iff_ne, ne_eq] at hq
+    by_cases hl : p.loc = "body"
+    · simp only [hl, if_true, P3.body.injEq] at h
+      subst h
+      rcases hq with hq | hq
+      · exact absurd hl hq
+      · cases hs : p.schema with
+        | none => simp [hs] at hq
+        | some s => by_cases hc : c.isEmpty <;> simp [bodyHasContent, hc]
+    · by_cases hf : p.loc = "formData" <;> simp [hl, hf] at h
+
+theorem splitP3_bodies {V : Type} (l : List (P3 V)) : ∀ b ∈ (splitP3 l).2.1, P3.body b ∈ l := by
+  induction l with
+  | nil => simp [splitP3]
+  | cons x rest ih =>
+    intro b hb
+    cases x with
+    | param p => simp only [splitP3] at hb; simp [ih b hb]
+    | body y =>
+      simp only [splitP3, List.mem_cons] at hb
+      rcases hb with rfl | hb
+      · simp
+      · simp [ih b hb]
+    | form n s => simp only [splitP3] at hb; simp [ih b hb]
+
+theorem toV3Op_body_content {V : Type} (env : Env3 V) (dc : List String) (o : Op2 V) (o3 : Op3 V)
+    (hq : o.params.all bodyParamOK = true) (h : toV3Op env dc o = .ok o3) :
+    (match o3.body with | none => true | some b => bodyHasContent b) = true := by
+  unfold toV3Op at h
+  simp only at h
+  generalize hsp : splitP3 (o.params.map (toV3P env (if o.consumes.isEmpty then dc else o.consumes))) = sp at h
+  obtain ⟨ps, bodies, forms⟩ := sp
   simp only at h
   split at h
   · simp at h
   · split at h
     · simp at h
+    · simp only [Res.ok.injEq] at h
+      subst h
+      simp only
+      cases bodies with
+      | nil =>
+        simp only
+        by_cases hf : forms.isEmpty
+        · simp [hf]
+        · simp only [hf, Bool.false_eq_true, if_false]
+          generalize (if o.consumes.isEmpty then dc else o.consumes) = cs
+          cases cs <;> simp [bodyHasContent, formBody]
+      | cons b rest =>
+        simp only
+        have hb : P3.body b ∈ o.params.map (toV3P env (if o.consumes.isEmpty then dc else o.consumes)) := by
+          apply splitP3_bodies
+          rw [hsp]; simp
+        simp only [List.mem_map] at hb
+        obtain ⟨q, hqm, hqe⟩ := hb
+        exact toV3P_body_content env _ q b (List.all_eq_true.mp hq q hqm) hqe
+
+theorem mapRes_mem {α β : Type} (f : α → Res β) (l : List α) (l' : List β) (h : mapRes f l = .ok l') :
+    ∀ b ∈ l', ∃ a ∈ l, f a = .ok b := by
+  induction l generalizing l' with
+  | nil => simp [mapRes] at h; subst h; simp
+  | cons a rest ih =>
+    unfold mapRes at h
+    split at h
+    · simp at h
+    · rename_i b0 hb0
+      split at h
+      · simp at h
+      · rename_i bs hbs
+        simp only [Res.ok.injEq] at h
+        subst h
+        intro b hb
+        simp only [List.mem_cons] at hb
+        rcases hb with rfl | hb
+        · exact ⟨a, by simp, hb0⟩
+        · obtain ⟨a', ha', hfa⟩ := ih bs hbs b hb
+          exact ⟨a', by simp [ha'], hfa⟩
+
+theorem sharedP3_body_content {V : Type} (c : List String) (l : List (String × PRef2 V))
+    (h : l.all (fun kp => bodyParamOK kp.2) = true) :
+    (sharedP3 c l).2.1.all (fun kb => bodyHasContent kb.2) = true := by
+  induction l with
+  | nil => simp [sharedP3]
+  | cons kp rest ih =>
+    obtain ⟨k, p⟩ := kp
+    simp only [List.all_cons, Bool.and_eq_true] at h
+    have ih' := ih h.2
+    unfold sharedP3
+    split
+    rename_i a b cc heq
+    rw [heq] at ih'
+    simp only at ih'
+    cases hp : toV3P { cbodies := [], cschemas := [] } c p with
+    | param q => simpa using ih'
+    | body x => simp [ih', toV3P_body_content _ c p x h.1 hp]
+    | form n s => simpa using ih'
+
+/-- Full statement: the converted document passes validation. It fails when a shared name is outside the v3
+    identifier alphabet (finding #38) or a body parameter has no schema (F-C17-14). **toV3_validates** — for the
+    parts of `Validate` the conversion itself can break (component names, request bodies without content); the
+    rest of `Validate` is exercised by the differential run, not modelled. -/
+theorem toV3_validates_partial {V : Type} (d : Doc2 V) (d3 : Doc3 V) (h : toV3Raw d = .ok d3)
+    (hn : namesOK d = true) (hb : bodiesOK d = true) : validates3 d3 = true := by
+  simp only [namesOK, Bool.and_eq_true] at hn
+  obtain ⟨⟨⟨hp, hr⟩, hd⟩, hs⟩ := hn
+  simp only [bodiesOK, Bool.and_eq_true] at hb
+  have hsh := sharedP3_names d.consumes d.params hp
+  have hshb := sharedP3_body_content d.consumes d.params hb.1
+  unfold toV3Raw at h
+  simp only at h
+  split at h
+  · simp at h
+  · rename_i paths hpaths
+    split at h
+    · simp at h
     · rename_i secs hsecs
       simp only [Res.ok.injEq] at h
       subst h
       simp only [validates3, Bool.and_eq_true]
-      refine ⟨⟨⟨⟨hsh.1, hsh.2.1⟩, mergeSchemas_names d.defs _ hsh.2.2 hd⟩, ?_⟩, mapSecs_names d.secs secs hsecs hs⟩
-      simpa [List.all_map] using hr
+      refine ⟨⟨⟨⟨⟨⟨hsh.1, hsh.2.1⟩, mergeSchemas_names d.defs _ hsh.2.2 hd⟩, ?_⟩, mapSecs_names d.secs secs hsecs hs⟩, hshb⟩, ?_⟩
+      · simpa [List.all_map] using hr
+      · apply List.all_eq_true.mpr
+        intro p3 hp3
+        obtain ⟨p2, hp2, hpe⟩ := mapRes_mem _ d.paths paths hpaths p3 hp3
+        unfold toV3Path at hpe
+        split at hpe
+        · simp at hpe
+        · rename_i ops hops
+          split at hpe
+          · simp at hpe
+          · simp only [Res.ok.injEq] at hpe
+            subst hpe
+            apply List.all_eq_true.mpr
+            intro o3 ho3
+            obtain ⟨o2, ho2, hoe⟩ := mapRes_mem _ p2.ops ops hops o3 ho3
+            exact toV3Op_body_content _ _ o2 o3
+              (List.all_eq_true.mp (List.all_eq_true.mp hb.2 p2 hp2) o2 ho2) hoe
 
 /-- witness (#38): a definition named `My Def` — the converted document has a component that is not an
     identifier -/
@@ -972,6 +1102,17 @@ theorem toV3_validates_witness :
     let d : Doc2 Nat := { loc := { host := "", basePath := "", schemes := [] }, consumes := [], produces := [],
                           params := [], responses := [], defs := [("My Def", .node {} [])], secs := [], paths := [] }
     namesOK d = false ∧ (match toV3Raw d with | .ok d3 => validates3 d3 | .error _ => true) = false := by
+  decide
+
+/-- witness (F-C17-14): a body parameter without a schema — the converted request body has no content -/
+theorem toV3_validates_witness_body :
+    let b : Param2 Nat := { name := "b", loc := "body", required := true, cons := {}, items := none, schema := none }
+    let d : Doc2 Nat := { loc := { host := "", basePath := "", schemes := [] }, consumes := [], produces := [],
+                          params := [], responses := [], defs := [], secs := [],
+                          paths := [{ path := "/x", params := [],
+                                      ops := [{ method := "post", opId := "p", consumes := [], produces := [],
+                                                params := [.val b], responses := [] }] }] }
+    bodiesOK d = false ∧ (match toV3Raw d with | .ok d3 => validates3 d3 | .error _ => true) = false := by
   decide
 
 end KinModel.Conv
